@@ -5,6 +5,7 @@ package dh
 
 import (
 	"math/rand"
+	"runtime"
 	"sync"
 	"time"
 )
@@ -105,8 +106,11 @@ func (c *Ctl) Step() bool {
 		return false
 	}
 	c.mu.Unlock()
-	if c.Gather > 0 {
+	// sometimes let the other goroutines reach their next hook first, so that there is a real choice
+	if c.Gather > 0 && c.gatherNow() {
 		time.Sleep(c.Gather)
+	} else {
+		runtime.Gosched()
 	}
 	c.mu.Lock()
 	keys := make([]string, 0, len(c.parked))
@@ -126,6 +130,12 @@ func (c *Ctl) Step() bool {
 	c.mu.Unlock()
 	close(ch)
 	return true
+}
+
+func (c *Ctl) gatherNow() bool {
+	c.mu.Lock()
+	defer c.mu.Unlock()
+	return c.rng.Intn(4) == 0
 }
 
 // ReleaseAll - let every goroutine run free from now on (end of a run, or after a failure).
